@@ -144,9 +144,9 @@ check(
     "DESIGN.md sections 3 (E1) and 4 C16", engine="E1 sched",
 )
 
-E6_NOTE = ("Functions are generated pure functions returning (name, canonical bound arguments); carriers: plain functions and "
-           "bound methods (functools.partial and async functions are not generated in this version); mmap_mode and custom store "
-           "backends are not generated; histories are bounded (<= 25 steps, <= 2 functions).")
+E6_NOTE = ("Functions are generated pure functions returning (name, canonical bound arguments); carriers: plain functions, async "
+           "functions, bound methods and (values only) functools.partial objects; mmap_mode and custom store backends are not "
+           "generated; histories are bounded (<= 25 steps, <= 2 functions); 'another process' is a fresh forked interpreter.")
 
 check(
     "C02", "exploration",
